@@ -216,7 +216,8 @@ def gen_config(rng, P, opts=None):
     ``meta['traits']`` names the gated constructs that occur.
     """
     o = {'replicate': True, 'libs': True, 'kernel_seed': False, 'lists': False, 'expand_false': False,
-         'mode': None, 'scoped_keys': True, 'max_seeds': 3, 'mixed_role_module': False, 'drivers': None}
+         'mode': None, 'scoped_keys': True, 'max_seeds': 3, 'mixed_role_module': False, 'drivers': None,
+         'replicate_closed': True}
     o.update(opts or {})
     truth = P.truth()
     targeted = {d['target'] for it in truth['items'].values() for d in it['deps']}
@@ -276,14 +277,18 @@ def gen_config(rng, P, opts=None):
     byq = {p.qname: p for p in P.procs}
     where, count = file_of(P)
     meta = {'seeds': [p.qname for p in seeds], 'driver_seeds': [p.qname for p in seeds if p.qname not in kernel_seeds],
-            'replicated': [], 'libs': {}, 'lists': {}, 'traits': set()}
+            'replicated': [], 'libs': {}, 'lists': {}, 'traits': set(), 'replicate_closed': o['replicate_closed']}
     if any(mixed(p) for p in seeds if p.qname not in kernel_seeds):
         meta['traits'].add('mixed_role_module')
     driver_modules = {p.module for p in seeds if p.module}
     for q in kernels:
         entry = {}
         p = byq[q]
-        if o['replicate'] and rng.random() < 0.15 and q not in meta['replicated']:
+        if o['replicate'] and not o['replicate_closed'] and rng.random() < 0.15 and q not in meta['replicated']:
+            # set comparison only (no build): any single kernel may be marked
+            entry['replicate'] = True
+            meta['replicated'].append(q)
+        elif o['replicate'] and rng.random() < 0.15 and q not in meta['replicated']:
             # a retained original needs its callees retained as well: replicate is closed under descendants
             grp, todo = [], [q]
             while todo:
@@ -689,13 +694,13 @@ def build_and_run(workdir, required, driver, optional=None):
     workdir.mkdir(parents=True, exist_ok=True)
     (workdir / 'all_units.F90').write_text(blob)
     # compile and link in one compiler invocation (process start-up dominates on a loaded machine)
-    rc, _, err = diffexec._run(['gfortran'] + FAST_FLAGS + ['all_units.F90', '-o', 'a.out'], workdir, 180)   # pylint: disable=protected-access
+    rc, _, err = diffexec._run(['gfortran'] + FAST_FLAGS + ['all_units.F90', '-o', 'a.out'], workdir, 600)   # pylint: disable=protected-access
     if rc == -999:
         return {'status': 'timeout', 'out': '', 'detail': 'compiler timed out', 'pulled': pulled}
     if rc != 0:
         return {'status': 'build_fail', 'out': '', 'detail': _explain(err[-1500:], blob), 'pulled': pulled}
     exe = workdir / 'a.out'
-    r = diffexec.run(exe, timeout=60)
+    r = diffexec.run(exe, timeout=120)
     if r['rc'] == -999:
         return {'status': 'timeout', 'out': '', 'detail': 'program timed out', 'pulled': pulled}
     if r['rc'] != 0 or r['san']:
@@ -736,6 +741,13 @@ def behaviour_edit(P, processed, spec):
             for p in Q.procs:
                 if p.qname in processed:
                     p.calls = [c for c in p.calls if not (c.kind == 'sub' and mname(c) in ks)]
+        elif name == 'dep':
+            # callees are kernels (drivers are roots): later steps address them by their suffixed names
+            for p in Q.procs:
+                if p.qname in processed:
+                    for c in p.calls:
+                        if not mname(c).endswith(opts['suffix']):
+                            c.mname = mname(c) + opts['suffix']
     return Q
 
 
